@@ -66,12 +66,17 @@ if _os.environ.get("CHAOS_TARGET"):
 def run(job):
     prop, target, mode, src = job
     env = dict(os.environ, PYTHONPATH=src, CHAOS_TARGET=target, CHAOS_MODE=mode, VERIF_OUT_DIR=tempfile.mkdtemp(prefix="chaos-out-"))
+    import signal
     try:
-        r = subprocess.run(["/verif/check", prop, "quick"], env=env, capture_output=True, text=True, timeout=3000)
-        tail = [l for l in (r.stdout + r.stderr).splitlines() if "MACHINERY" in l or "Error" in l][-2:]
-        return prop, target, mode, r.returncode, " | ".join(tail)[:300]
-    except subprocess.TimeoutExpired:
-        return prop, target, mode, "timeout", ""
+        p = subprocess.Popen(["/verif/check", prop, "quick"], env=env, stdout=subprocess.PIPE, stderr=subprocess.STDOUT, text=True, start_new_session=True)
+        try:
+            out, _ = p.communicate(timeout=int(os.environ.get("CHAOS_TIMEOUT", "1200")))
+        except subprocess.TimeoutExpired:
+            os.killpg(p.pid, signal.SIGKILL)     # the check forks: kill the whole group, or the pipe never closes
+            p.communicate()
+            return prop, target, mode, "timeout", ""
+        tail = [l for l in out.splitlines() if "MACHINERY" in l or "Error" in l][-2:]
+        return prop, target, mode, p.returncode, " | ".join(tail)[:300]
     finally:
         shutil.rmtree(env["VERIF_OUT_DIR"], ignore_errors=True)
 
